@@ -330,7 +330,58 @@ def r16_6(ctx):
         ctx.ob('R16.6', 'Queue.%s:starts-from-the-after-fork-state' % name, ok, fi, None, 'self._after_fork() on every path')
 
 
+
+def r16_11(ctx):
+    ctx.rule('R16.11', 'only the feeder thread touches the write end of a Queue: put() hands the object to the buffer, '
+                       'close() hands the feeder its sentinel -- a second writer overtakes items the feeder has popped '
+                       'but not yet written, a second closer shuts the pipe under a feeder that is still flushing',
+             floor=2)
+    m = ctx.model
+    ci = m.cls('queues:Queue')
+    seen = 0
+    for name, fi in sorted(ci.methods.items()):
+        for c in [x for x in walk_own(fi.node) if isinstance(x, ast.Call)]:
+            t = fi.callee(c) or ''
+            if t in ('self._send_bytes', 'self._writer.send_bytes', 'self._writer.send', 'self._writer.close'):
+                seen += 1
+                what = 'writes to' if 'send' in t else 'closes'
+                ctx.ob('R16.11', 'Queue.%s:%s-the-pipe-itself' % (name, 'writes' if 'send' in t else 'closes'), False, fi, c,
+                       'Queue.%s %s the pipe itself (`%s`): that is the feeder\'s job' % (name, what, ast.unparse(c)[:50]))
+    st = ci.methods.get('_start_thread')
+    q.need(st is not None, 'Queue._start_thread not found')
+    handed = [ast.unparse(a) for c in walk_own(st.node) if isinstance(c, ast.Call) for k in c.keywords if k.arg == 'args'
+              for a in (k.value.elts if isinstance(k.value, ast.Tuple) else [])]
+    ctx.ob('R16.11', '_start_thread:feeder-gets-send-and-close', 'self._send_bytes' in handed and 'self._writer.close' in handed,
+           st, None, 'the feeder is handed self._send_bytes and self._writer.close')
+    ctx.ob('R16.11', 'Queue:no-other-writer-or-closer', seen == 0, ci, None, '%d direct uses of the write end outside the feeder' % seen)
+
+
+def r16_12(ctx):
+    ctx.rule('R16.12', 'JoinableQueue.put counts the item before anybody can see it: the unfinished-task count goes up '
+                       'inside the critical section that appends to the buffer (the feeder needs that lock to pop)', floor=1)
+    m = ctx.model
+    fi = m.func('queues:JoinableQueue.put')
+    # the item becomes visible through the buffer (appended here, or by the base class's put)
+    app = [c for (n, c) in q.calls(fi, lambda t: t in ('self._buffer.append', 'Queue.put', 'super().put'))]
+    rel = [c for (n, c) in q.calls(fi, 'self._unfinished_tasks.release')]
+    # one critical section must cover both: the buffer lock (the feeder cannot pop before the count is up) or the
+    # condition task_done() and join() take (nobody can look at the count before it is up)
+    withs = [w for w in walk_own(fi.node) if isinstance(w, ast.With) and
+             any(ast.unparse(i.context_expr) in ('self._notempty', 'self._cond') for i in w.items)]
+    ok = bool(app) and bool(rel) and any(all(any(x is c for x in ast.walk(w)) for c in app + rel) for w in withs)
+    ctx.ob('R16.12', 'JoinableQueue.put:counted-under-the-buffer-lock', ok, fi, rel[0] if rel else None,
+           'publication and self._unfinished_tasks.release() inside one `with self._notempty` / `with self._cond`' if ok else
+           'the item is published (appended / handed to Queue.put) outside the section that counts it: a consumer can '
+           'take it and call task_done() while the count is still 0')
+
+
 def run(ctx):
+    r16_11(ctx)
+    r16_12(ctx)
+    # a waiter is counted as sleeping while it still holds the lock (borrowed from C17): join() relies on it
+    from .c17 import r17_2 as _r17_2
+    from ..report import Only as _Only16b
+    _r17_2(_Only16b(ctx, ('announce-before-releasing-the-lock',), floor=1, doc='Condition.wait counts the sleeper before it releases the lock'))
     # join() sleeps on the condition that task_done notifies: the token accounting of notify is C17's (borrowed)
     from .c17 import r17_3 as _r17_3
     from ..report import Only as _Only16
@@ -356,6 +407,8 @@ def run(ctx):
 
 _Q = 'billiard/queues.py'
 MUTANTS = [
+    ('put-writes-the-pipe-itself', _Q, "            self._buffer.append(obj)\n            self._notempty.notify()\n\n    def get(", "            if not self._buffer:\n                self._send_bytes(ForkingPickler.dumps(obj))\n                return\n            self._buffer.append(obj)\n            self._notempty.notify()\n\n    def get(", 'R16.11'),
+    ('joinable-put-counts-after-publishing', _Q, "                self._buffer.append(obj)\n                self._unfinished_tasks.release()\n                self._notempty.notify()\n", "                self._buffer.append(obj)\n                self._notempty.notify()\n        with self._cond:\n            self._unfinished_tasks.release()\n", 'R16.12'),
     ('join-tests-before-taking-the-condition', _Q, "        with self._cond:\n            if not self._unfinished_tasks._semlock._is_zero():\n                self._cond.wait()\n",
      "        if self._unfinished_tasks._semlock._is_zero():\n            return\n        with self._cond:\n            self._cond.wait()\n", 'R16.4'),
     ('reader-asks-for-a-fixed-chunk', 'billiard/connection.py', "                chunk = read(handle, remaining)\n", "                chunk = read(handle, min(size, 65536))\n", 'R13.3'),
